@@ -325,7 +325,7 @@ def run_shard(spec, ctx):
         for i in range(spec['count']):
             regions, mode = carts.random_regions(rng)
             regions['music'] = rc.music_mask(regions['music'])
-            code = carts.simple_lua(rng, rng.choice((0, 40, 400)))
+            code = carts.varied_lua(rng, rng.choice((0, 40, 400)))
             g = carts.make_game(regions, code=code, version=rng.randint(1, 255))
             sh = Shadow(rc.join_memory(regions))
             steps = []
@@ -368,7 +368,7 @@ def run_shard(spec, ctx):
                 regions['gfx'] = bytes(range(256)) * 32   # all 256 values through the channel split
                 ctx.feature('stego_all_values')
             version = rng.randint(1, 255)
-            code = carts.simple_lua(rng, rng.choice((0, 30, 800)))
+            code = carts.varied_lua(rng, rng.choice((0, 30, 800)))
             case = {'kind': 'png', 'regions': regions, 'code': code, 'version': version}
             ctx.case((rc.join_memory(regions), code, version, 'png'))
             rows = [bytearray(carts.random_bytes(rng, rc.CART_W * 4)) for _ in range(rc.CART_H)]
